@@ -353,13 +353,16 @@ def s_materialize_reshape(ctx):
     I.models[ir.tensor] = lambda interp, v, dtype=None, **k: (made.append((list(v), dtype)) or ("tensor", len(made)))
     r = I.call(I.getattr(rule, "rewrite"), [OpRecorder(), data, shape_in])
     ok = isinstance(r, Call) and r.op == "Reshape" and r.args[0] is data and isinstance(r.args[1], Call) and r.args[1].op == "Constant" \
-        and r.kwargs == {"allowzero": 1} and len(made) == 1 and made[0][1] == ir.DataType.INT64
+        and set(r.kwargs) <= {"allowzero"} and len(made) == 1 and made[0][1] == ir.DataType.INT64
     ctx.check("C05.rules.MaterializeReshapeShape.replacement_is_reshape_of_data_by_a_constant_with_allowzero", ok, CL09)
-    ctx.check("C09.rules.MaterializeReshapeShape.materialized_dims_are_read_literally_allowzero_1", ok,
-              CL09 + " — the materialised dims are concrete extents: a 0 must mean 'zero', not 'copy the input dim' (allowzero=1)")
     if not ok:
         return
     new = made[0][0]
+    # the data shape is unknown here, so a 0 in the constant can only mean 'zero' (allowzero=1); what 0 / -1 / allowzero mean against a KNOWN
+    # data shape is decided semantically in the scenario C09.rules.MaterializeReshapeShape[data shape known]
+    ctx.check("C09.rules.MaterializeReshapeShape.materialized_dims_are_read_literally_allowzero_1",
+              r.kwargs.get("allowzero") == 1 or not any(isinstance(d, int) and d == 0 for d in new),
+              CL09 + " — the materialised dims are concrete extents: a 0 must mean 'zero', not 'copy the input dim' (allowzero=1)")
     okr = len(new) == len(static)
     ctx.check("C09.rules.MaterializeReshapeShape.constant_has_the_rank_of_the_output", okr, CL09)
     if not okr:
@@ -382,6 +385,63 @@ SCENARIOS.append(Scenario("C09.rules.MaterializeReshapeShape", s_materialize_res
                           [("onnxscript/rewriter/rules/common/_materialize_reshape_shape.py", "MaterializeReshapeShape.check"),
                            ("onnxscript/rewriter/rules/common/_materialize_reshape_shape.py", "MaterializeReshapeShape.rewrite")],
                           kind="bounded", bound="output rank <= 3; " + BOUND, trusted=TRUST + ["ONNX Reshape: -1 is inferred from the element count; allowzero=1 forbids 0 together with -1"]))
+
+
+def s_materialize_reshape_known_data(ctx):
+    """MaterializeReshapeShape when the data shape is annotated too: whatever constant and allowzero the rule emits, the rewritten
+    Reshape(data, constant, allowzero) must be VALID and give the annotated output extents for every binding of the dims for which the
+    original Reshape produced that output (same element count) — ONNX Reshape semantics (0 = copy unless allowzero, -1 = inferred)."""
+    import onnx_ir as ir
+    from onnxscript.rewriter.rules.common import _materialize_reshape_shape as mod
+    from onnxscript.rewriter import _ir_utils
+    from .c09_reshape import reshape_semantics, prod
+    I = Interp(ctx)
+    W = World(I)
+    kinds = ["int", "N", "M", "unknown"]
+    dstatic, drt = choose_shape(ctx, W, "data", max_rank=2, kinds=kinds, allow_none=False)
+    ostatic, ort_ = choose_shape(ctx, W, "out", max_rank=2, kinds=kinds, allow_none=False)
+    for t in drt + ort_:
+        ctx.assume(z3.Or(*[t == v for v in (0, 1, 2, 3, 7)]))   # the property's own binding set; products of dims are nonlinear
+    data = W.value("data", dims=dstatic, rt=drt, dtype=ir.DataType.FLOAT)
+    shape_in = W.value("shape", dims=None, rt=[], dtype=ir.DataType.INT64)
+    I.models[_ir_utils.get_numpy_value] = lambda interp, v: None
+    out = W.value("out", dims=ostatic, rt=ort_, dtype=ir.DataType.FLOAT)
+    context = SObj(object, "context")
+    root = W.node("Reshape", [data, shape_in], outputs=[out], attrs={})
+    context.fields.update(output_values=[out], root=root, nodes=[root])
+    rule = SObj(mod.MaterializeReshapeShape, "rule")
+    try:
+        fired = I.truth(I.call(I.getattr(rule, "check"), [context, data, shape_in]))
+    except PyRaise as e:
+        ctx.check("C04.rules.MaterializeReshapeShape.check_never_raises", False, CL04)
+        return
+    if not fired:
+        ctx.cover("MaterializeReshapeShape.known_data.check_failed")
+        return
+    made = []
+    I.models[ir.tensor] = lambda interp, v, dtype=None, **k: (made.append((list(v), dtype)) or ("tensor", len(made)))
+    r = I.call(I.getattr(rule, "rewrite"), [OpRecorder(), data, shape_in])
+    ok = isinstance(r, Call) and r.op == "Reshape" and r.args[0] is data and isinstance(r.args[1], Call) and r.args[1].op == "Constant" \
+        and set(r.kwargs) <= {"allowzero"} and r.kwargs.get("allowzero", 0) in (0, 1) and len(made) == 1
+    ctx.check("C05.rules.MaterializeReshapeShape.replacement_is_reshape_of_data_by_a_constant_with_allowzero", ok, CL09)
+    if not ok:
+        return
+    ctx.cover("MaterializeReshapeShape.known_data.fired")
+    target = [term(d) for d in made[0][0]]
+    valid, outs, _q = reshape_semantics(target, drt, bool(r.kwargs.get("allowzero", 0)))
+    same_count = prod(drt) == prod(ort_)      # the original Reshape produced the annotated output from this data
+    ctx.check("C09.rules.MaterializeReshapeShape.rewritten_reshape_is_valid_for_every_binding_the_original_accepts", z3.Implies(same_count, valid),
+              CL09 + " / 'The optimized model accepts exactly the inputs the original accepted'")
+    ctx.check("C09.rules.MaterializeReshapeShape.rewritten_reshape_gives_the_annotated_output_shape_for_every_binding",
+              z3.Implies(z3.And(same_count, valid), z3.And(len(outs) == len(ort_), *[a == b for a, b in zip(outs, ort_)])), CL09)
+
+
+SCENARIOS.append(Scenario("C09.rules.MaterializeReshapeShape[data shape known]", s_materialize_reshape_known_data,
+                          [("onnxscript/rewriter/rules/common/_materialize_reshape_shape.py", "MaterializeReshapeShape.check"),
+                           ("onnxscript/rewriter/rules/common/_materialize_reshape_shape.py", "MaterializeReshapeShape.rewrite")],
+                          kind="bounded", bound="data and output rank <= 2; each dim static int / named N / named M / unknown; every dim bound to {0,1,2,3,7}",
+                          trusted=TRUST + ["ONNX Reshape: 0 copies the input dim unless allowzero=1; -1 is inferred from the element count; allowzero=1 forbids 0 together with -1"],
+                          max_paths=20000))
 
 
 def s_collapse_slice(ctx):
